@@ -15,12 +15,11 @@
 
 #ifdef VERIF_CBMC
 uint64_t nondet_u64(void);
-uint64_t __vin[VIN_MAX];
-unsigned __vin_n = 0;
+/* The runner recovers the input sequence from the counterexample trace: every assignment to the
+ * local 'v' of vin64, in execution order.  (No recording array: a counter that becomes symbolic
+ * after a conditional call would turn every later record into a symbolic-index array write.) */
 static inline uint64_t vin64(void) {
     uint64_t v = nondet_u64();
-    __CPROVER_assert(__vin_n < VIN_MAX, "VIN_MAX large enough");
-    __vin[__vin_n++] = v;
     return v;
 }
 #define V_ASSUME(c) __CPROVER_assume(c)
@@ -55,5 +54,9 @@ static inline void vin_fill(void *p, size_t n) {
     for (size_t i = 0; i < n; i++) b[i] = vin8();
 }
 /* vacuity guard: the final assert(0) must come back FAILED (reachable end of harness) */
+#ifdef V_NO_WITNESS
+#define V_END() do {} while (0)
+#else
 #define V_END() V_COVER()
+#endif
 #endif
